@@ -20,6 +20,7 @@ LEVEL_TEXT = ("Table agreement between expression_range's operator handlers and 
               "the _range_* worker / the shift-rotate tag) and default-to-top rules for everything the analysis does not "
               "model; overflow branches of the multiply / shift-left workers must not depend on the operand bounds. The rest of the "
               "workers' arithmetic is not decided.")
+LEVEL_TEXT += ' Also: the interval primitives used by the range operations abandon a pairing of two closed members only on a strict hi < lo.'
 ASSUMPTIONS = ["CPython ast", "reference meaning of the IR operators as in doc/expression (OT-0)"]
 
 # IR operator -> (python operator class or method name, worker / tag the method must reach)
